@@ -853,3 +853,86 @@ pub fn e2e_worker(ctx: &mut Ctx) {
         ctx.report.notes.push(format!("end to end: {} default-on rules run one at a time give the produced lints of each document; a long-lived harper_wasm::Linter and a long-lived LintGroup + remove_overlaps give the reported ones; episodes reuse a small clause pool inside short and > 40-word sentences", on.len()));
     }
 }
+
+// ------------------------------------------------------------------------------------------
+// C14 across processes: an ignore list exported by one process keeps hiding the same lints in another.
+// `mode=export`: lint a fixed list of texts (from the seed), ignore every lint of every second text, write
+// `{texts, exported list, what was ignored}` to a file.  `mode=import`: a fresh process reads the file,
+// imports the list into a fresh linter and lints the same texts; every ignored lint must be hidden, every other
+// lint of the exporting process must still be there.
+
+pub fn ignore_proc_worker(ctx: &mut Ctx) {
+    let corpus = load_corpus();
+    let file = ctx.opts.get("file").cloned().expect("file");
+    let mode = ctx.opts.get("mode").cloned().unwrap_or_else(|| "export".into());
+    let key = |l: &harper_wasm::Lint| format!("{}..{} {} {}", l.span().start, l.span().end, l.lint_kind(), l.message());
+    if mode == "export" {
+        let mut rng = Rng::derive(ctx.seed, "c14-proc", 0);
+        let n = ctx.budget(2000, 40000) as usize;
+        let mut lin = Linter::new(harper_wasm::Dialect::American);
+        let mut docs = Vec::new();
+        for i in 0..n {
+            // no quotation marks, lints away from the end of the text: the listed C14 findings are not the subject here
+            let mut text = String::new();
+            for k in 0..rng.range(1, 3) {
+                if k > 0 {
+                    text.push(' ');
+                }
+                text.push_str(&rng.pick(&corpus.sentences).replace(['"', '\u{201C}', '\u{201D}', '\'', '\u{2019}', '\n'], " "));
+            }
+            text.push_str(" That is all for now, nothing else happened today.");
+            let lints = match guarded(|| lin.lint(text.clone(), Language::Plain)) {
+                Ok(l) => l,
+                Err(_) => {
+                    lin = Linter::new(harper_wasm::Dialect::American);
+                    continue;
+                }
+            };
+            let keys: Vec<String> = lints.iter().map(key).collect();
+            let mut ignored: Vec<String> = Vec::new();
+            if i % 2 == 0 {
+                for l in lints {
+                    ignored.push(key(&l));
+                    lin.ignore_lint(text.clone(), l);
+                }
+            }
+            docs.push(json!({"text": text, "lints": keys, "ignored": ignored}));
+        }
+        let out = json!({"docs": docs, "exported": lin.export_ignored_lints()});
+        std::fs::write(&file, out.to_string()).expect("write");
+        ctx.report.evaluations += n as u64;
+        return;
+    }
+    let v: serde_json::Value = serde_json::from_str(&std::fs::read_to_string(&file).expect("read")).expect("json");
+    let mut lin = Linter::new(harper_wasm::Dialect::American);
+    if lin.import_ignored_lints(v["exported"].as_str().unwrap_or("").to_string()).is_err() {
+        ctx.report.finding("C14", "proc.import-failed", 0, || json!({}), || "a fresh process could not import the exported ignore list".to_string());
+        return;
+    }
+    for d in v["docs"].as_array().cloned().unwrap_or_default() {
+        let text = d["text"].as_str().unwrap_or("").to_string();
+        let before: Vec<String> = d["lints"].as_array().map(|a| a.iter().filter_map(|x| x.as_str().map(|s| s.to_string())).collect()).unwrap_or_default();
+        let ignored: Vec<String> = d["ignored"].as_array().map(|a| a.iter().filter_map(|x| x.as_str().map(|s| s.to_string())).collect()).unwrap_or_default();
+        let Ok(now) = guarded(|| lin.lint(text.clone(), Language::Plain)) else { continue };
+        let now: Vec<String> = now.iter().map(key).collect();
+        ctx.report.evaluations += 1;
+        if !ignored.is_empty() {
+            ctx.report.nontrivial(fnv(text.as_bytes()));
+        }
+        for k in &ignored {
+            if now.contains(k) {
+                ctx.report.finding("C14", "proc.reappears@other-process", text.len(), || json!({"text": text, "lint": k}), || format!("{k:?} was ignored and exported by one process; a fresh process that imported the list reports it again"));
+                break;
+            }
+        }
+        // a lint that was not ignored (in a text where nothing was ignored) must still be reported, unless an identical
+        // ignored lint exists elsewhere in the list (same words around the same lint: one class)
+        if ignored.is_empty() {
+            for k in &before {
+                if !now.contains(k) {
+                    ctx.report.count("proc_hidden_without_being_ignored(twin of an ignored lint elsewhere?)", 1);
+                }
+            }
+        }
+    }
+}
